@@ -275,17 +275,14 @@ def exDb : Db := { tabs := [⟨"ATOM".toList, exTable⟩] }
 def exKw : List Kw := [⟨"name".toList, .list [.text "CA".toList, .text "N".toList]⟩, ⟨"no_resSeq".toList, .scalar (.text "6.0".toList)⟩,
   ⟨"rowID".toList, .list [.int 1, .int 0, .int 7]⟩]
 
-theorem exDb_wf : WF exDb where
-  names := by decide
-  cells := by
-    intro t ht r hr
-    refine ⟨?_, fun k hk => absurd hk (by simp [exDb])⟩
-    simp only [exDb, List.mem_singleton] at ht; subst ht
-    simp only [exTable, List.mem_cons, List.not_mem_nil, or_false] at hr
-    rcases hr with rfl | rfl | rfl <;> rfl
-
-example : findTab exDb "atom".toList = some ⟨"ATOM".toList, exTable⟩ ∧ ColsOK exDb.extraNames "x,rowID".toList = true ∧
+example : WF exDb ∧ findTab exDb "atom".toList = some ⟨"ATOM".toList, exTable⟩ ∧ ColsOK exDb.extraNames "x,rowID".toList = true ∧
     KeysOK exDb exKw ∧ RowIDInts exKw ∧ Small exDb exKw :=
-  ⟨List.find?_cons_of_pos (by decide), by decide, by unfold KeysOK; decide, rowIDInts_of_check _ (by decide), rfl, by decide⟩
+  ⟨⟨by decide, by
+      intro t ht r hr
+      refine ⟨?_, fun k hk => absurd hk (by simp [exDb])⟩
+      simp only [exDb, List.mem_singleton] at ht; subst ht
+      simp only [exTable, List.mem_cons, List.not_mem_nil, or_false] at hr
+      rcases hr with rfl | rfl | rfl <;> rfl⟩,
+   List.find?_cons_of_pos (by decide), by decide, by unfold KeysOK; decide, rowIDInts_of_check _ (by decide), rfl, by decide⟩
 
 end Props.C03
